@@ -133,7 +133,7 @@ func RunSibling(p *Prog, r *Report, prop string) {
 			continue
 		}
 		pk := FuncPkg(fn)
-		if pk == nil || CurveOf(pk.Path()) == "" {
+		if pk == nil || CurveOf(pk.Path()) == "" || fieldRe.MatchString(pk.Path()) {
 			continue
 		}
 		file := p.RelFile(FuncPos(fn))
